@@ -190,8 +190,10 @@ theorem verifyTail_general {S R : Side} (hp : Paired S R) (asym : Bool) (hl : Na
     rw [hp.rsl]; simp only [List.length_append]; omega
   simp only [verifyTail]
   rw [if_neg (by rw [hp.rsl]; simp only [List.length_append]; omega)]
+  rw [if_neg (by rw [hp.rsl]; simp only [List.length_append]; omega)]
   rw [hlen, List.drop_left' rfl, List.take_left' rfl, hver]
   simp only [Bool.true_eq_false, if_false, hpad]
+  rw [if_neg (by simp only [List.length_append]; omega)]
   rw [if_neg (by simp only [List.length_append]; omega)]
   have : (H ++ X ++ T).length - T.length = (H ++ X).length := by simp only [List.length_append]; omega
   rw [this, List.take_left' rfl, List.drop_left' hH]
